@@ -21,7 +21,8 @@ TIME_BUDGET = [240]
 
 def run_scenario(args):
     """worker: one scenario -> picklable result"""
-    sc, sockpath, pkgpath, seed, verbose = args
+    sc, sockpath, pkgpath, seed, verbose = args[:5]
+    known = args[5] if len(args) > 5 else []
     from driver import Run
     from interp import Unsupported, BoundExceeded
     t0 = time.time()
@@ -85,6 +86,24 @@ def run_scenario(args):
             if rr == z3.sat:
                 ob["cex"] = dict(nondets=r.nondets_of(model), schedule=[e for e in r.schedule_of(model) if not e.get("idle")],
                                  log=r.log_of(model))
+                # listed findings with a signature ("when": values of named inputs): is there a violation outside every signature?
+                sigs = [kf["when"] for kf in known if kf.get("scenario") == sc["entry"] and kf.get("obligation") == key[1]
+                        and kf.get("kind", key[0]) == key[0] and kf.get("when")]
+                if sigs:
+                    outside = []
+                    for when in sigs:
+                        eqs = []
+                        for nm, val in when.items():
+                            v = m.nondets.get(nm)
+                            if v is None:
+                                continue
+                            eqs.append(v == (z3.BoolVal(bool(val)) if z3.is_bool(v) else z3.BitVecVal(int(val), v.size())))
+                        outside.append(z3.Not(z3.And(*eqs)) if eqs else z3.BoolVal(False))
+                    rr2, model2, dt2 = r.solve(f, *outside, timeout_ms=tmo)
+                    ob["outside_known"] = str(rr2)
+                    if rr2 == z3.sat:
+                        ob["cex"] = dict(nondets=r.nondets_of(model2), schedule=[e for e in r.schedule_of(model2) if not e.get("idle")],
+                                         log=r.log_of(model2))
             if rr == z3.unknown:
                 res["status"] = "inconclusive"
                 res["notes"].append("solver unknown on obligation %r" % (key,))
@@ -183,7 +202,8 @@ def main():
         scenarios = [s for s in mod.SCENARIOS if s["entry"] == doc["entry"]]
     sess = Session()
     known = json.load(open(os.path.join(VERIF, "known_findings.json")))
-    jobs = [(s, sess.sock, sess.pkgpath(s.get("harness", "root")), seed, a.v and len(scenarios) == 1) for s in scenarios]
+    kfs = [f for f in known.get("findings", []) if f["property"] == prop]
+    jobs = [(s, sess.sock, sess.pkgpath(s.get("harness", "root")), seed, a.v and len(scenarios) == 1, kfs) for s in scenarios]
     if len(jobs) == 1 or a.j == 1:
         results = [run_scenario(j) for j in jobs]
     else:
@@ -212,6 +232,10 @@ def main():
                 if f["property"] == prop and f["scenario"] == res["entry"] and f["obligation"] == ob["msg"] and f.get("kind", ob["kind"]) == ob["kind"]:
                     kf = f
                     break
+            if kf is not None and ob.get("outside_known") in ("sat", "unknown"):
+                # a violation that no listed signature covers: reported, the listed one is still printed
+                known_hits.append((kf, ob))
+                kf = None
             cex = ob["cex"]
             h = hashlib.sha1(json.dumps([res["entry"], ob["msg"], ob["pos"]], sort_keys=True).encode()).hexdigest()[:10]
             rp = os.path.join(VERIF, "replays", "%s-%s-%s.json" % (prop, res["entry"], h))
